@@ -63,6 +63,9 @@ def search(prop, failed, repo, verif, seed=1, count=300000):
             t = "resolve"
         if t in KNOWN and t not in targets:
             targets.append(t)
+        if f.get("name", "").startswith("pipeline/") and prop == "C07" and "pipeline" not in targets:
+            # the glue of parse(): also the whole pipeline (final tree against derivation + reference passes)
+            targets.append("pipeline")
     if not targets:
         return None
     scratch = tempfile.mkdtemp(prefix="gramwit.", dir="/var/tmp")
@@ -138,7 +141,7 @@ def stand_in(prop, fns, units_undecided, repo, verif, seed=1, count=300000):
             t = "resolve"
         if t in KNOWN and t not in targets:
             targets.append(t)
-    if prop == "C08" and "parse" in fns:
+    if prop in ("C07", "C08") and "parse" in fns:
         targets.append("pipeline")
     if not targets:
         return None
